@@ -102,6 +102,9 @@ class BaseElementLocator
                        {
                            return address - diff;
                        });
+        // resize() takes the new end of the data from the slot behind the last element
+        element_addresses_[to + (element_addresses_.size() - from)] =
+            static_cast<std::size_t>(last_element_ - diff - memory_begin);
     }
 
     void make_room_for_last_element_at(std::size_t index, std::size_t size_of_element, std::byte* memory_begin) noexcept
